@@ -147,8 +147,9 @@ def main(argv=None):
         violations=int(len(rest)),
     )
     if not args.replay:
-        os.makedirs(os.path.join(VERIF, "evidence"), exist_ok=True)
-        evpath = os.path.join(VERIF, "evidence", "%s.json" % prop)
+        evdir = os.environ.get("GTMC_EVIDENCE_DIR") or os.path.join(VERIF, "evidence")  # (mutant self-tests write elsewhere)
+        os.makedirs(evdir, exist_ok=True)
+        evpath = os.path.join(evdir, "%s.json" % prop)
         with open(evpath, "w") as f:
             json.dump(ev, f, indent=1, sort_keys=True)
             f.write("\n")
